@@ -18,8 +18,29 @@ BANNED_CALLS = {'hash', 'id', 'time', 'random', 'uuid4', 'uuid1', 'getenv', 'ura
                 'lru_cache', 'cache', 'cached_property'}
 
 
+def _impure(fn):
+    """why a memoised function may answer differently from the plain one: it writes something other than its own locals
+    (attribute / subscript store, global, nonlocal, del) - '' when nothing of the kind occurs.  A memo over a function that
+    only builds new values from its arguments and immutable class data cannot make the translation depend on history."""
+    local = {a.arg for a in fn.args.args + fn.args.kwonlyargs}
+    for n in ast.walk(fn):
+        if isinstance(n, ast.Name) and isinstance(n.ctx, ast.Store):
+            local.add(n.id)
+    for n in ast.walk(fn):
+        if isinstance(n, (ast.Global, ast.Nonlocal, ast.Delete)):
+            return f'line {n.lineno}: {type(n).__name__.lower()} statement'
+        if isinstance(n, (ast.Attribute, ast.Subscript)) and isinstance(n.ctx, ast.Store):
+            base = n.value
+            while isinstance(base, (ast.Attribute, ast.Subscript)):
+                base = base.value
+            if isinstance(n, ast.Attribute) or not (isinstance(base, ast.Name) and base.id in local and
+                                                    base.id not in {a.arg for a in fn.args.args}):
+                return f'line {n.lineno}: stores into {ast.unparse(n)[:40]}'
+    return ''
+
+
 def _scan(res):
-    bad, files = [], 0
+    bad, files, memo_ok, deco_lines = [], 0, [], set()
     for root, _, names in os.walk(SRC):
         if 'utilities' in root.split(os.sep) and False:
             continue
@@ -54,7 +75,7 @@ def _scan(res):
                 if isinstance(n, ast.Call):
                     f = n.func
                     name = f.id if isinstance(f, ast.Name) else f.attr if isinstance(f, ast.Attribute) else ''
-                    if name in BANNED_CALLS:
+                    if name in BANNED_CALLS and not (name in ('lru_cache', 'cache') and n.lineno in deco_lines):
                         bad.append(f'{rel}:{n.lineno} calls {name}()')
                 if isinstance(n, (ast.FunctionDef, ast.ClassDef)):
                     for d in n.decorator_list:
@@ -62,13 +83,20 @@ def _scan(res):
                             (d.func.id if isinstance(d, ast.Call) and isinstance(d.func, ast.Name) else
                              d.func.attr if isinstance(d, ast.Call) and isinstance(d.func, ast.Attribute) else '')
                         if dn in BANNED_CALLS:
-                            bad.append(f'{rel}:{n.lineno} {n.name} is decorated with @{dn} (process-wide memo)')
+                            why = _impure(n) if dn in ('lru_cache', 'cache') and isinstance(n, ast.FunctionDef) else 'memo'
+                            if why:
+                                bad.append(f'{rel}:{n.lineno} {n.name} is decorated with @{dn} (process-wide memo; {why})')
+                            else:
+                                memo_ok.append(f'{rel}:{n.name}')
+                            deco_lines.add(d.lineno)
     o = Ob('C09.Translate.no_nondeterminism', 'K3', decisive=False, function='excel2pycl/src (translation path)')
     o.count = files
     o.status = 'failed' if bad else 'discharged'
     o.detail = ('; '.join(bad[:6]) if bad else
                 f'{files} modules of the translation path: no iteration over a set, no hash / id / time / random / uuid / '
-                'environment read, no process-wide memo decorator')
+                'environment read, no process-wide memo decorator' +
+                (f' except on functions that write nothing but their own locals: {memo_ok} (assumption: the class data they '
+                 'read - token sets, subclass lists - is fixed after import)' if memo_ok else ''))
     res.add(o)
 
 
